@@ -296,7 +296,8 @@ func newRows(result *updog.Result, groupBy []string) *rows {
 		cols: append(groupBy, "count"),
 	}
 
-	if len(result.Groups) > 0 {
+	if len(groupBy) > 0 {
+		// one row per group; a group-by query that matches nothing has no rows.
 		for _, rr := range result.Groups {
 			fields := []string{}
 			for _, f := range rr.Fields {
